@@ -28,7 +28,7 @@ def main():
     ctx.run_tlc("ObjGraph", "ObjGraph_mc.cfg", expect="ok", timeout=1500)
     ctx.run_tlc("ObjGraph", "ObjGraph_sw_PlaceholderLeak.cfg", expect="violation")
     hs = heaps(ctx, thorough)
-    cases = [dict(h, mode="c04") for h in hs]
+    cases = [dict(h, mode="c04", falsy=(i % 5 == 4)) for i, h in enumerate(hs)]      # every fifth heap consists of falsy objects
     results = replay("objgraph", cases)
     ctx.replayed = len(cases)
     for h, r in zip(hs, results):
